@@ -17,6 +17,8 @@ pub struct AsmOut {
     pub diag: String,
     pub msg: String,
     /// the diagnostic rendered (`{:?}`) without panicking
+    /// diagnostic code of the error ("" if it has none)
+    pub code: String,
     pub diag_ok: bool,
     /// every labelled span of the diagnostic lies inside the source
     pub spans_ok: bool,
@@ -26,7 +28,7 @@ impl AsmOut {
     pub fn to_json(&self) -> Value {
         json!({"res": self.res, "stage": self.stage, "orig": self.orig, "words": self.words, "bps": self.bps,
                "syms": self.syms.iter().map(|(n, l)| json!([n, l])).collect::<Vec<_>>(), "msg": self.msg,
-               "diag_ok": self.diag_ok, "spans_ok": self.spans_ok})
+               "code": self.code, "diag_ok": self.diag_ok, "spans_ok": self.spans_ok})
     }
 }
 
@@ -37,13 +39,15 @@ pub fn assemble(src: &str, render_diag: bool) -> AsmOut {
     let text: &'static str = holder.src();
     let mut out = AsmOut {
         res: "err", stage: "", orig: -1, words: vec![], bps: vec![], syms: vec![], spans: vec![],
-        diag: String::new(), msg: String::new(), diag_ok: true, spans_ok: true,
+        diag: String::new(), msg: String::new(), code: String::new(), diag_ok: true, spans_ok: true,
     };
     let src_len = text.len();
     let mut spans_ok = true;
     let mut diag_ok = true;
+    let mut code = String::new();
     let (r, ended) = guarded(|| -> Result<(), (&'static str, String)> {
         let mut diag = |stage: &'static str, e: miette::Report| -> (&'static str, String) {
+            code = e.code().map(|c| c.to_string()).unwrap_or_default();
             if let Some(labels) = e.labels() {
                 for l in labels {
                     if l.offset() + l.len() > src_len {
@@ -90,6 +94,7 @@ pub fn assemble(src: &str, render_diag: bool) -> AsmOut {
             out.msg = e.msg();
         }
     }
+    out.code = code;
     out.diag_ok = diag_ok;
     out.spans_ok = spans_ok;
     lace::reset_state();
